@@ -39,29 +39,48 @@ Definition t_tryrlock (t : table) (l : lk) (g : gid) : option (bool * table) :=
 Definition t_unlock (t : table) (l : lk) (g : gid) : option table :=
   match unlock g (t l) with Ret _ w => Some (tset t l w) | Panic => None end.
 
-(* DB.TryLocks db.go:3070: in order, stops at the first refusal (earlier ones stay held); CKPT gating *)
-Fixpoint try_locks (t : table) (g : gid) (ls : list lk) : option (bool * table) :=
+(* a request over several locks is granted or refused as a whole: on a refusal the guards taken so far go back to the
+   state they had (db.go restoreGuards); [done] = (lock, state before) in the order they were taken *)
+Definition restore_one (t : table) (g : gid) (l : lk) (prev : gstate) : option table :=
+  if gstate_eqb (gst (t l) g) prev then Some t
+  else match prev with
+       | Unlocked => t_unlock t l g
+       | Shared => match t_tryrlock t l g with Some (_, t') => Some t' | None => None end
+       | Exclusive => match t_trylock t l g with Some (_, t') => Some t' | None => None end
+       end.
+Fixpoint restore_guards (t : table) (g : gid) (done : list (lk * gstate)) : option table :=
+  match done with
+  | [] => Some t
+  | (l, p) :: r => match restore_one t g l p with None => None | Some t' => restore_guards t' g r end
+  end.
+Definition refuse (t : table) (g : gid) (done : list (lk * gstate)) : option (bool * table) :=
+  match restore_guards t g done with None => None | Some t' => Some (false, t') end.
+
+(* DB.TryLocks: in order; CKPT gating; the first refusal undoes the earlier ones *)
+Fixpoint try_locks_from (t : table) (g : gid) (ls : list lk) (done : list (lk * gstate)) : option (bool * table) :=
   match ls with
   | [] => Some (true, t)
   | l :: r =>
     if lk_eqb l LCkpt && negb (gstate_eqb (state (t LWrite)) Unlocked) && negb (gstate_eqb (gst (t LWrite) g) Exclusive)
-    then Some (false, t)
+    then refuse t g done
     else match t_trylock t l g with
          | None => None
-         | Some (false, t') => Some (false, t')
-         | Some (true, t') => try_locks t' g r
+         | Some (false, t') => refuse t' g done
+         | Some (true, t') => try_locks_from t' g r (done ++ [(l, gst (t l) g)])
          end
   end.
-(* DB.TryRLocks db.go:3131 *)
-Fixpoint try_rlocks (t : table) (g : gid) (ls : list lk) : option (bool * table) :=
+Definition try_locks (t : table) (g : gid) (ls : list lk) : option (bool * table) := try_locks_from t g ls [].
+(* DB.TryRLocks *)
+Fixpoint try_rlocks_from (t : table) (g : gid) (ls : list lk) (done : list (lk * gstate)) : option (bool * table) :=
   match ls with
   | [] => Some (true, t)
   | l :: r => match t_tryrlock t l g with
               | None => None
-              | Some (false, t') => Some (false, t')
-              | Some (true, t') => try_rlocks t' g r
+              | Some (false, t') => refuse t' g done
+              | Some (true, t') => try_rlocks_from t' g r (done ++ [(l, gst (t l) g)])
               end
   end.
+Definition try_rlocks (t : table) (g : gid) (ls : list lk) : option (bool * table) := try_rlocks_from t g ls [].
 (* DB.Unlock db.go:3161 (the CommitWAL side effect lives in PageDB) *)
 Fixpoint unlock_all (t : table) (g : gid) (ls : list lk) : option table :=
   match ls with
